@@ -456,7 +456,6 @@ func runC18(c *Ctx) {
 		c.Check(dec, "Shutdown releases one reference", p.Pos(shutFn.Pos()), "refCounter--", "counter not decremented")
 	}
 	runC18More(c)
-	runSIB(c, "R9")
 }
 
 func runC18Wiring(c *Ctx) {
